@@ -98,19 +98,10 @@ Definition boundary_ok (b : list N) : bool := nonempty b && forallb is_bchar b.
 
 Definition text_ok (s : str) : bool := forallb is_scalar s.
 
-(* FULL-STRENGTH domain of a value, as the property states it: any non-empty text.
+(* domain of a value, as the property states it: any non-empty text.
    A quoted-string cannot carry the control characters HTTPHeaders rejects. *)
 Definition value_ok_full (st : pstyle) (v : str) : bool :=
   nonempty v && text_ok v && match st with Quoted => negb (has_forbidden v) | Ext => true end.
-
-(* the values on which the code AS IT IS loses information (NOTES.md, open finding D3,
-   signature d3-trailing-backslash-param): a quoted-string whose value ends in a
-   backslash (written as two) and which is followed by another parameter *)
-Definition value_defect (st : pstyle) (followed : bool) (v : str) : bool :=
-  match st with
-  | Ext => false
-  | Quoted => followed && last_is 92 v
-  end.
 
 Definition ctype_ok (ct : str) : bool :=
   text_ok ct && negb (has_forbidden ct) && str_eqb (TV.C06.Model.strip ct) ct.
@@ -129,15 +120,6 @@ Definition part_ok_full (b : list N) (p : fpart) : bool :=
      | Some hb => negb (occurs_b (DASH2 ++ b) hb)
      | None => false
      end.
-
-Definition part_defect (p : fpart) : bool :=
-  value_defect (fp_nstyle p) (is_file p) (fp_name p)
-  || match fp_file p with
-     | None => false
-     | Some (fn, st, _) => value_defect st false fn
-     end.
-
-Definition part_ok (b : list N) (p : fpart) : bool := part_ok_full b p && negb (part_defect p).
 
 Definition header_len (p : fpart) : N :=
   match part_header_bytes p with Some hb => N.of_nat (length hb) | None => 0 end.
